@@ -25,7 +25,7 @@ Chk(name, ante, cond) == IF ante THEN Count(name) /\ (IF cond THEN TRUE ELSE Fla
 Total(ev) == Chk("total", TRUE, ev.out.st \in {"ok", "err"})
 
 ALLSEL == [t |-> "ALL"]
-Empty == [case |-> 0, creds |-> {}, ledger |-> {}, jwks |-> {}, honest |-> {}, holders |-> {}, issuers |-> {}, vpairs |-> {}, ppairs |-> {}]
+Empty == [case |-> 0, creds |-> {}, ledger |-> {}, jwks |-> {}, honest |-> {}, holders |-> {}, issuers |-> {}, vpairs |-> {}, ppairs |-> {}, mpairs |-> {}]
 Init == l = 1 /\ st = Empty /\ TLCSet(1, <<>>) /\ TLCSet(2, [c \in {"total"} |-> 0]) /\ TLCSet(3, [n |-> 0, mo |-> 0, dl |-> 0])
 
 Strat(s) == [kind |-> s.kind, paths |-> {s.paths[i].tok : i \in {j \in DOMAIN s.paths : ~s.paths[j].bad}}]
@@ -106,6 +106,15 @@ OnIssue(ev) ==
                                    /\ IsObj(m.jwt.hdr) /\ DOMAIN m.jwt.hdr.f \subseteq {"alg", "typ"} /\ HdrAlg(m.jwt) = ev.alg
                                    /\ ev.out.sigok)
        /\ Chk("issue.history", past # {}, (DiscIds(m) \cup {m.discs[i].salt : i \in DOMAIN m.discs} \cup Unmatched(pl, D)) \cap past = {})
+       \* deterministic-salt build (C16): salts are the queue prefix in issuance order, exactly one per disclosure
+       /\ Chk("mock.queue", ev.consumed >= 0,
+              /\ ev.consumed = Len(m.discs) /\ ev.consumed = NumSd(MarkRoot(U, S)) /\ ev.consumed <= Len(ev.queue)
+              /\ [i \in DOMAIN m.discs |-> m.discs[i].salt] = SubSeq(ev.queue, 1, Len(m.discs)))
+       \* identical claims, strategy and salts => byte-identical disclosures and payload (decoys off: decoy digests stay random)
+       /\ Chk("mock.repro", ev.mockpair # 0 /\ ~ev.decoy /\ (\E p \in st.mpairs : p.id = ev.mockpair),
+              \A p \in {q \in st.mpairs : q.id = ev.mockpair} :
+                 /\ p.ids = Ids(m.discs) /\ p.pl = pl /\ p.plb64 = ev.out.plb64
+                 /\ ev.alg \in {"HS256", "EdDSA"} => p.jwtid = m.jwt.id)
        /\ IF ev.decoy /\ IsObj(pl) THEN TLCSet(3, Add3(TLCGet(3), Leak(U, UserPart(pl, ev.hkjwk # NONE, U), D))) ELSE TRUE
        /\ st' = [st EXCEPT
             !.creds = @ \cup {[jwtid |-> m.jwt.id, U |-> U, S |-> S, at |-> MarkRoot(U, S), hkjwk |-> ev.hkjwk, key |-> ev.key, alg |-> ev.alg,
@@ -113,6 +122,7 @@ OnIssue(ev) ==
             !.ledger = @ \cup {Signed(ev.key, ev.alg, m.jwt.id)},
             !.jwks = IF ev.hk = "" THEN @ ELSE @ \cup {[key |-> ev.hk, jwk |-> ev.hkjwk]},
             !.honest = @ \cup {[mid |-> MsgId(m), jwtid |-> m.jwt.id, sel |-> ALLSEL, tc |-> TRUE, full |-> TRUE, kb |-> NONE]},
+            !.mpairs = IF ev.mockpair # 0 THEN @ \cup {[id |-> ev.mockpair, ids |-> Ids(m.discs), pl |-> pl, jwtid |-> m.jwt.id, plb64 |-> ev.out.plb64]} ELSE @,
             !.issuers = @ \cup {[inst |-> ev.inst, ids |-> DiscIds(m) \cup {m.discs[i].salt : i \in DOMAIN m.discs} \cup Unmatched(pl, D)]}]
      ELSE st' = st
 
